@@ -751,8 +751,6 @@ def _parse_scsv_bool(x):
 
 def _parse_scsv_cell(func, data, missingstr=None, fillval=None):
     if data.strip() == missingstr:
-        if fillval == "NaN":
-            return func(np.nan)
         return func(fillval)
     elif func.__qualname__ == "bool":
         return _parse_scsv_bool(data)
